@@ -81,6 +81,95 @@ def _one_hierarchy(ev, types, seqs, Ps, child, has_seq, idoff, ask):
         ev.append(["lift", types, list(root), has_seq, [list(p) for p in Ps], list(child), by_type, by_seq, has_t, one, idoff])
 
 
+def _blocks_of(positions, st):
+    """ascending blocks covering a 5'->3' list of positions that never turns back"""
+    asc = positions if st == "+" else positions[::-1]
+    blocks = []
+    for p in asc:
+        if blocks and blocks[-1][1] == p:
+            blocks[-1][1] = p + 1
+        else:
+            blocks.append([p, p + 1])
+    return blocks
+
+
+def _derived_hierarchy(ev, rnd, types, seqs, Ps, has_seq, ask):
+    """the top level is not constructed directly but DERIVED by the library from a sequence that knows its location on
+    its parent: reverse_complement() or a slice.  Judged as the hierarchy with the equivalent placement."""
+    from inscripta.biocantor.parent import Parent
+    from inscripta.biocantor.sequence import Sequence
+    from inscripta.biocantor.sequence.alphabet import Alphabet
+
+    d = len(Ps)
+    (pb, pst) = Ps[d - 1]
+    try:
+        # the placement of the top level carries its own parent pointer (the documented way to say where a sequence sits)
+        ptr = Parent(id="L%d" % (d - 1), sequence_type=types[d - 1])
+        up = Parent(id="L%d" % (d - 1), sequence_type=types[d - 1], sequence=level_sequence(d - 1, types, seqs, 0),
+                    location=E.make_loc(pb, pst, ptr),
+                    parent=build_parent(d - 2, types, seqs, Ps, True, Ps[d - 2], 0) if d >= 2 else None)
+        base = Sequence(seqs[d], Alphabet.NT_EXTENDED, id="L%d" % d, type=types[d], parent=up)
+    except Exception:
+        return
+    positions = []
+    for b in (pb if pst == "+" else pb[::-1]):
+        rng = list(range(b[0], b[1]))
+        positions += rng if pst == "+" else rng[::-1]
+    how = rnd.choice(["revcomp", "slice", "revcomp-slice"])
+    try:
+        if how == "revcomp":
+            derived = base.reverse_complement(new_id="L%d" % d, new_type=types[d])
+            eq_place = (pb, "-" if pst == "+" else "+")
+            chars = extract_py(eq_place[0], eq_place[1], seqs[d - 1])
+        else:
+            src, spos, sst = base, positions, pst
+            if how == "revcomp-slice":
+                src = base.reverse_complement(new_id="L%d" % d, new_type=types[d])
+                spos, sst = positions[::-1], ("-" if pst == "+" else "+")
+            a = rnd.randrange(0, len(spos))
+            b = rnd.randrange(a + 1, len(spos) + 1)
+            derived = src[a:b]
+            eq_place = (_blocks_of(spos[a:b], sst), sst)
+            chars = extract_py(eq_place[0], eq_place[1], seqs[d - 1])
+    except Exception:
+        return
+    if str(derived) != chars:
+        return  # the derived characters themselves are property C03's business
+    n = len(chars)
+    child = _rand_clean_loc(rnd, n, 3)
+    Ps2 = list(Ps[:d - 1]) + [eq_place]
+    seqs2 = list(seqs[:d]) + [chars]
+    try:
+        par = Parent(id="L%d" % d, sequence_type=types[d], sequence=derived)
+        c = E.make_loc(child[0], child[1], par)
+    except Exception:
+        return
+
+    def val(fn):
+        def enc(r):
+            try:
+                s2 = list(str(r.extract_sequence()))
+            except Exception as ex2:
+                s2 = "!" + type(ex2).__name__
+            return (E.loc(r), E.pid(r), s2)
+
+        return E.outcome(fn, enc)
+
+    one = val(lambda: c.parent.lift_child_location_to_parent())
+    if how != "slice":
+        # reverse_complement() keeps the converted location (with its parent pointer) but not the ancestors' sequences:
+        # what can be asked is the one-step lift
+        ev.append(["lift1", how, list(seqs[0]), [list(p) for p in Ps2], list(child), one])
+        return
+    by_type = [[t, val(lambda t=t: c.lift_over_to_first_ancestor_of_type(t))] for t in ask]
+    by_seq = []
+    for a in range(d + 1):
+        target = derived if a == d else level_sequence(a, types, seqs2, 0)
+        by_seq.append([a, val(lambda target=target: c.lift_over_to_sequence(target))])
+    has_t = [[t, bool(c.has_ancestor_of_type(t))] for t in ask]
+    ev.append(["lift", types, list(seqs[0]), True, [list(p) for p in Ps2], list(child), by_type, by_seq, has_t, one, 0])
+
+
 def _lift_events(args):
     seed, n, G, with_overlap = args
     setup_repo_import()
@@ -123,6 +212,9 @@ def _lift_events(args):
             variants.reverse()
         for (vtypes, vseqs, vPs, idoff) in variants:
             _one_hierarchy(ev, vtypes, vseqs, vPs, child, has_seq, idoff, sorted(set(types + ["zzz"])))
+        clean = all(all(Ps[-1][0][i][1] <= Ps[-1][0][i + 1][0] for i in range(len(Ps[-1][0]) - 1)) for _ in [0]) if d >= 1 else False
+        if d >= 1 and has_seq and clean and len(seqs[d]) >= 1:
+            _derived_hierarchy(ev, rnd, types, seqs, Ps, has_seq, sorted(set(types + ["zzz"])))
     return ev
 
 
